@@ -1,7 +1,7 @@
 (* CompareFacts.v — soundness of the comparison used for size constraints (C06):
    "satisfied" is only ever said of two expressions that are equal under every assignment, and
    "violated" only of two expressions that differ by the same non-zero integer under every assignment. *)
-From Coq Require Import List String QArith ZArith Bool Qreduction Qpower Ring Field Lia Setoid.
+From Coq Require Import List String QArith ZArith Bool Qreduction Qpower Qminmax Ring Field Lia Setoid.
 From Bq Require Import Expr ExprFacts StdSem StdSemFacts Routine Compare.
 Import ListNotations.
 Open Scope string_scope.
@@ -194,6 +194,50 @@ Section Meaning.
     intro H. unfold Qpow_std. rewrite (is_int_compat _ _ H), is_int_inject, (to_int_compat _ _ H), to_int_inject. reflexivity.
   Qed.
 
+  Lemma fold_qmax_compat x y l l' : x == y -> Forall2 Qeq l l' -> fold_right Qmax x l == fold_right Qmax y l'.
+  Proof. intros Hxy H. induction H as [|a b l l' Hab _ IH]; cbn [fold_right]; [exact Hxy|]. rewrite Hab, IH. reflexivity. Qed.
+  Lemma fold_qmin_compat x y l l' : x == y -> Forall2 Qeq l l' -> fold_right Qmin x l == fold_right Qmin y l'.
+  Proof. intros Hxy H. induction H as [|a b l l' Hab _ IH]; cbn [fold_right]; [exact Hxy|]. rewrite Hab, IH. reflexivity. Qed.
+
+  (* the winner kept by maxp has the value of the Max / Min *)
+  Lemma maxp_sound_max p0 : forall ps m,
+      maxp true p0 ps = Some m -> peval m == fold_right Qmax (peval p0) (map peval ps).
+  Proof.
+    induction ps as [|q ps IH]; intros m H; cbn [maxp] in H.
+    - inversion H; subst. reflexivity.
+    - destruct (maxp true p0 ps) as [m'|] eqn:Em; [|discriminate]. specialize (IH m' eq_refl).
+      destruct (poly_is_const (poly_add q (poly_scale (-1) m'))) as [c|] eqn:Ec; [|discriminate].
+      pose proof (poly_is_const_sound _ _ Ec) as Hc. rewrite peval_add, peval_scale in Hc.
+      cbn [map fold_right]. rewrite <- IH.
+      destruct (Qle_bool 0 c) eqn:El; inversion H; subst.
+      + apply Qle_bool_iff in El. symmetry. apply Q.max_l.
+        setoid_replace (peval m) with (peval m' + c) by (rewrite <- Hc; ring).
+        setoid_replace (peval m') with (peval m' + 0) at 1 by ring. apply Qplus_le_r. exact El.
+      + symmetry. apply Q.max_r.
+        assert (Hlt : c < 0). { destruct (Qlt_le_dec c 0) as [L|L]; [exact L|]. apply Qle_bool_iff in L. congruence. }
+        setoid_replace (peval q) with (peval m + c) by (rewrite <- Hc; ring).
+        setoid_replace (peval m) with (peval m + 0) at 2 by ring. apply Qplus_le_r. apply Qlt_le_weak. exact Hlt.
+  Qed.
+
+  Lemma maxp_sound_min p0 : forall ps m,
+      maxp false p0 ps = Some m -> peval m == fold_right Qmin (peval p0) (map peval ps).
+  Proof.
+    induction ps as [|q ps IH]; intros m H; cbn [maxp] in H.
+    - inversion H; subst. reflexivity.
+    - destruct (maxp false p0 ps) as [m'|] eqn:Em; [|discriminate]. specialize (IH m' eq_refl).
+      destruct (poly_is_const (poly_add q (poly_scale (-1) m'))) as [c|] eqn:Ec; [|discriminate].
+      pose proof (poly_is_const_sound _ _ Ec) as Hc. rewrite peval_add, peval_scale in Hc.
+      cbn [map fold_right]. rewrite <- IH.
+      destruct (Qle_bool 0 c) eqn:El; inversion H; subst.
+      + apply Qle_bool_iff in El. symmetry. apply Q.min_r.
+        setoid_replace (peval q) with (peval m + c) by (rewrite <- Hc; ring).
+        setoid_replace (peval m) with (peval m + 0) at 1 by ring. apply Qplus_le_r. exact El.
+      + symmetry. apply Q.min_l.
+        assert (Hlt : c < 0). { destruct (Qlt_le_dec c 0) as [L|L]; [exact L|]. apply Qle_bool_iff in L. congruence. }
+        setoid_replace (peval m) with (peval m' + c) by (rewrite <- Hc; ring).
+        setoid_replace (peval m') with (peval m' + 0) at 2 by ring. apply Qplus_le_r. apply Qlt_le_weak. exact Hlt.
+  Qed.
+
   (* ---------- the normal form has the value of the expression ---------- *)
   Theorem normalize_sound e : peval (normalize e) == ev e.
   Proof.
@@ -227,6 +271,20 @@ Section Meaning.
         unfold evalT in *; cbn [eval stdI map]. rewrite (Qpow_std_int _ _ _ Hc). unfold qpow. rewrite Z2Nat.id by exact E0. reflexivity.
       + (* ONeg *) destruct args as [|a [|b rest]]; try (cbn [normalize]; apply peval_aoc).
         cbn [normalize]. inversion IH as [|? ? Ha _]; subst. rewrite peval_scale, Ha. unfold evalT; cbn. ring.
+      + (* OMax *) destruct args as [|a rest]; [cbn [normalize]; apply peval_aoc|].
+        cbn [normalize]. inversion IH as [|? ? Ha IH']; subst.
+        destruct (maxp true (normalize a) (map normalize rest)) as [m|] eqn:Em; [|apply peval_aoc].
+        rewrite (maxp_sound_max _ _ _ Em). unfold evalT; cbn [eval stdI map]. fold (evalT rho).
+        apply fold_qmax_compat; [exact Ha|].
+        clear - IH'. induction rest as [|r rest IHr]; cbn [map]; [constructor|].
+        inversion IH' as [|? ? Hr IH'']; subst. constructor; [exact Hr | exact (IHr IH'')].
+      + (* OMin *) destruct args as [|a rest]; [cbn [normalize]; apply peval_aoc|].
+        cbn [normalize]. inversion IH as [|? ? Ha IH']; subst.
+        destruct (maxp false (normalize a) (map normalize rest)) as [m|] eqn:Em; [|apply peval_aoc].
+        rewrite (maxp_sound_min _ _ _ Em). unfold evalT; cbn [eval stdI map]. fold (evalT rho).
+        apply fold_qmin_compat; [exact Ha|].
+        clear - IH'. induction rest as [|r rest IHr]; cbn [map]; [constructor|].
+        inversion IH' as [|? ? Hr IH'']; subst. constructor; [exact Hr | exact (IHr IH'')].
     - cbn [normalize]. apply peval_aoc.
   Qed.
 
